@@ -4,6 +4,7 @@ package main
 
 import (
 	"fmt"
+	"go/constant"
 	"go/types"
 	"strings"
 
@@ -188,6 +189,15 @@ type SpecReg struct {
 	folds  map[string][]*SpecFn // by array elem sort name
 	lemmaAxioms []string
 	lemmaVCs    []LemmaVC
+	pins        []Pin
+}
+
+// Pin: a checked equation between source constants (e.g. the regular expression an uninterpreted predicate stands for).
+type Pin struct {
+	Text  string
+	Props []string
+	Goal  string
+	Line  string
 }
 
 func NewSpecReg(p *Program, ss *Sorts) *SpecReg {
@@ -218,6 +228,15 @@ func (r *SpecReg) Build() {
 	for _, sd := range r.prog.Specs {
 		if sd.Kind == "lemma" {
 			r.buildLemma(sd)
+		}
+		if sd.Kind == "pin" {
+			env := &SpecEnv{reg: r, pk: sd.Pkg, bound: map[string]Term{}}
+			t, err := env.EvalBool(sd.Body)
+			if err != nil {
+				r.prog.errf(sd.Line, "pin: %v", err)
+				continue
+			}
+			r.pins = append(r.pins, Pin{Text: sd.Name, Props: sd.Props, Goal: t.S, Line: sd.Line})
 		}
 	}
 	for _, sd := range r.prog.Specs {
@@ -794,9 +813,7 @@ func constTerm(ss *Sorts, c *types.Const) (Term, error) {
 		}
 		return Term{s, SInt}, nil
 	case KStr:
-		s := v.ExactString()
-		s = strings.Trim(s, `"`)
-		return Term{ss.StrConst(s), SStr}, nil
+		return Term{ss.StrConst(constant.StringVal(v)), SStr}, nil
 	case KBool:
 		return Term{v.ExactString(), SBool}, nil
 	}
